@@ -696,6 +696,72 @@ static std::string runL(TS &ts)
   return out.str();
 }
 
+// H <op>... : readers and a writer interleaved over ONE shared buffer (BufferWriter::buffer).
+//   w:<hex> wn:<n>          writer.write                           new            BufferReader r_k(writer.buffer)
+//   rd:<k>:<size>:<m>       r_k.read (m = 1: into memory, shown)    vw:<k>:<count> r_k.getView<uint8_t>(count), read at once
+//   end:<k>                 r_k.end()
+static std::string runH(TS &ts)
+{
+  BufferWriter bw;
+  std::vector<std::unique_ptr<BufferReader>> rs;
+  static uint8_t dummy = 0;
+  std::ostringstream out;
+  bool first = true;
+  while (ts.more()) {
+    auto f = split(ts.next(), ':');
+    std::ostringstream o;
+    try {
+      if (f[0] == "w") {
+        auto d = unhex(f[1]);
+        bw.write(d.empty() ? &dummy : d.data(), d.size());
+        o << "ok|" << bw.buffer->size();
+      } else if (f[0] == "wn") {
+        bw.write(nullptr, std::stoull(f[1]));
+        o << "ok|" << bw.buffer->size();
+      } else if (f[0] == "new") {
+        std::shared_ptr<AbstractArray<uint8_t>> b = bw.buffer;
+        rs.emplace_back(new BufferReader(b));
+        o << "reader=" << rs.size() - 1;
+      } else {
+        size_t k = std::stoull(f[1]);
+        if (k >= rs.size()) o << "bad";
+        else {
+          BufferReader &r = *rs[k];
+          try {
+            if (f[0] == "rd") {
+              size_t size = std::stoull(f[2]);
+              bool m = f[3] == "1" && size <= (1u << 20);
+              std::unique_ptr<uint8_t[]> dst(new uint8_t[m ? size : 0]);
+              r.read(m ? dst.get() : nullptr, size);
+              o << "ok:" << (m ? hex(dst.get(), size) : "-");
+            } else if (f[0] == "vw") {
+              size_t count = std::stoull(f[2]);
+              auto v = r.getView<uint8_t>(count);
+              size_t total = bw.buffer->size();
+              if (v->size() == 0) o << "view:-:0:-";
+              else {
+                size_t off = (size_t)(v->data() - bw.buffer->begin());   // relative to the CURRENT storage
+                bool inb = off <= total && v->size() <= total - off;
+                o << "view:" << off << ":" << v->size() << ":" << (inb ? hex(v->data(), v->size()) : "OOB");
+              }
+            } else if (f[0] == "end") o << "end=" << (r.end() ? 1 : 0);
+            else o << "badop";
+          } catch (const std::exception &) {
+            o << "throw";
+          }
+          o << "|" << r.cursor;
+        }
+      }
+    } catch (const std::exception &) {
+      o.str("");
+      o << "throw";
+    }
+    out << (first ? "" : " ; ") << o.str();
+    first = false;
+  }
+  return out.str();
+}
+
 static std::string runW(TS &ts)
 {
   BufferWriter bw;
@@ -740,6 +806,7 @@ int main()
       else if (kind == "F") res = runF(ts);
       else if (kind == "W") res = runW(ts);
       else if (kind == "L") res = runL(ts);
+      else if (kind == "H") res = runH(ts);
     } catch (const std::logic_error &e) {
       res = std::string("harness-error:") + e.what();
     }
